@@ -108,6 +108,16 @@ pub fn apply(src: &str, kind: &FaultKind, other: Option<&str>) -> Option<String>
             out.push_str(&src[*pos + old.len_utf8()..]);
             Some(out)
         }
+        FaultKind::CharNext { pos } => {
+            let b = src.as_bytes();
+            if *pos >= b.len() {
+                return None;
+            }
+            let i = B64_ALPHABET.iter().position(|c| *c == b[*pos])?;
+            let mut out = b.to_vec();
+            out[*pos] = B64_ALPHABET[(i + 1) % 64];
+            String::from_utf8(out).ok()
+        }
         FaultKind::Truncate { n } => {
             if *n >= src.len() || !src.is_char_boundary(*n) {
                 return None;
